@@ -107,6 +107,12 @@ var propSpecs = map[string]*PropSpec{
 		Technique: "contract-based deductive verification: creation and epic reassignment require an existing, unpruned epic (postconditions of the two sections over the graph read under the lock); epics get no epic; prune policy removes an epic only together with all its (finished) children",
 		Assume:    []string{"plan (tasks inside the epic it creates) and the tree builder's placement are not yet under contract", "writer induction as in C06"},
 	},
+	"C15": {
+		ID: "C15", Title: "Accepted plans can always make progress", Exclude: cat(txLabels, jsonLabels),
+		Funcs:     cat([]string{"verifLemmaProgress", "isReachable", "hasCycle", "writeLinkEvent$1", "newEvent"}, readyFuncs, replayFuncs),
+		Technique: "contract-based deductive verification: (1) ghost lemma, discharged by the solver: if the effective waits-for relation has a strict rank and nothing is doing/blocked/error, the unfinished task of minimal rank is ready by the proved meaning of isReady; (2) writer obligation: appending a link must extend a rank of the waits-for relation - this obligation FAILS on the link section and is the recorded finding",
+		Assume:    []string{"existence of a rank-minimal unfinished task in a finite store is the (trusted) well-foundedness of < on a finite set", "epic reassignment, creation inside an epic and plan also extend the waits-for relation and are not yet under this obligation"},
+	},
 	"C16": {
 		ID: "C16", Exclude: txLabels, Title: "--json output is a single value and tells the truth",
 		Funcs:     cat(lockFuncs, sectionFuncs, outerFuncs, commandFuncs, helperFuncs, readyFuncs, replayFuncs),
